@@ -5,6 +5,7 @@
 package nbhttp
 
 import (
+	"strings"
 	"bufio"
 	"errors"
 	"io"
@@ -420,7 +421,8 @@ func (res *Response) checkChunked() {
 	}
 
 	// 3. See if we need to chunk for trailers
-	if !res.chunked && len(res.header[trailerHeader]) > 0 {
+	// trailers need chunked framing, which an HTTP/1.0 peer does not understand.
+	if !res.chunked && len(res.header[trailerHeader]) > 0 && res.request.ProtoAtLeast(1, 1) {
 		res.chunked = true
 	}
 
@@ -502,9 +504,15 @@ func (res *Response) eoncodeHead() {
 	}
 
 	res.trailer = map[string]string{}
-	trailers := res.header[trailerHeader]
-	for _, k := range trailers {
-		res.trailer[k] = ""
+	if res.chunked {
+		// "Trailer: A, B" declares two trailers.
+		for _, names := range res.header[trailerHeader] {
+			for _, k := range strings.Split(names, ",") {
+				if k = http.CanonicalHeaderKey(strings.TrimSpace(k)); k != "" {
+					res.trailer[k] = ""
+				}
+			}
+		}
 	}
 	for k, vv := range res.header {
 		if _, ok := res.trailer[k]; !ok {
